@@ -31,8 +31,9 @@ Report(fails) == IF fails = {} THEN TRUE ELSE PrintT(<< "FAIL", l, ep, fails >>)
 (* ---- projections of the pending table ---------------------------------------- *)
 (* hook entry: dev, st, seg, ver, mt, cur, buf (first segment's message header, whose length field the  *)
 (* implementation keeps updating, followed by the payload bytes collected so far)                       *)
+From17(b) == IF Len(b) >= 17 THEN SubSeq(b, 17, Len(b)) ELSE << >>          \* an entry may be observed with any buffer
 ObsPend(p) == [dev |-> p.dev, st |-> p.st, seg |-> p.seg, ver |-> p.ver, mt |-> p.mt, cur |-> p.cur,
-               h14 |-> SubSeq(p.buf, 1, Min(14, Len(p.buf))), pl |-> SubSeq(p.buf, 17, Len(p.buf))]
+               h14 |-> SubSeq(p.buf, 1, Min(14, Len(p.buf))), pl |-> From17(p.buf)]
 SpecPend(e, p) == [dev |-> e[1], st |-> e[2], seg |-> p.seg, ver |-> p.ver, mt |-> p.mt, cur |-> p.cur,
                    h14 |-> SubSeq(p.hdr, 1, 14), pl |-> p.buf]
 ObsPendSet(pend) == {ObsPend(pend[x]) : x \in 1..Len(pend)}
@@ -42,7 +43,7 @@ SpecPendSet(pending) == {SpecPend(e, pending[e]) : e \in DOMAIN pending}
 FromObs(pend) ==
     LET eps == {<< pend[x].dev, pend[x].st >> : x \in 1..Len(pend)} IN
     [e \in eps |-> LET p == CHOOSE q \in {pend[x] : x \in 1..Len(pend)} : q.dev = e[1] /\ q.st = e[2] IN
-                   [open |-> TRUE, hdr |-> SubSeq(p.buf, 1, Min(16, Len(p.buf))), buf |-> SubSeq(p.buf, 17, Len(p.buf)),
+                   [open |-> TRUE, hdr |-> SubSeq(p.buf, 1, Min(16, Len(p.buf))) \o Zeros(16 - Min(16, Len(p.buf))), buf |-> From17(p.buf),
                     seg |-> p.seg, ver |-> p.ver, mt |-> p.mt, cur |-> p.cur]]
 
 (* ---- monitors of one decode event ------------------------------------------ *)
